@@ -494,6 +494,10 @@ def free_call(tr, name, sig, argn, n):
         vt = map_type(params[2]).c
         args = [tr.e(argn[0]), tr.e(argn[1]), tr.addr(argn[2])]
         return 'std_from_chars__%s(%s)' % (re.sub(r'\W+', '_', vt), ', '.join(args))
+    if name == 'to_chars' and len(argn) >= 3 and all(x.get('kind') == 'CXXDefaultArgExpr' for x in argn[3:]):
+        params, _ = parse_fn_params(sig)
+        vt = map_type(params[2]).c
+        return 'std_to_chars__%s(%s, %s, %s)' % (re.sub(r'\W+', '_', vt), tr.e(argn[0]), tr.e(argn[1]), tr.e(argn[2]))
     if name in ('min', 'max') and len(argn) == 2:
         a, b = tr.e(argn[0]), tr.e(argn[1])
         return ('STD_MIN(%s, %s)' if name == 'min' else 'STD_MAX(%s, %s)') % (a, b)
